@@ -338,6 +338,10 @@ pub fn text_alphabet(large: bool) -> Vec<(String, String)> {
         ("null-word".into(), "null".into()),
         ("cdata-open".into(), "<![CDATA[x".into()),
         ("trailing-bracket".into(), "x]]".into()),
+        // two features at once (what selects the CDATA form + what must be escaped inside it)
+        ("padded-cdata-end".into(), " a]]>b ".into()),
+        ("cdata-end-newline".into(), "if t[i[1]]>0 then\n".into()),
+        ("padded-cdata-open".into(), " <![CDATA[x ".into()),
     ];
     if large {
         v.push(("len64k".into(), "abcdefgh".repeat(8192)));
